@@ -107,17 +107,20 @@ pub fn gen_case(t: &mut Tape) -> Case {
     let top_tag = if lts[0] { ", \"tag\"" } else { "" };
     // in addition to the chain: an (a)sync fn whose output type mentions an explicit lifetime parameter of the fn
     let pick = t.weighted(&[2, 2, 1]); // 0 none, 1 async, 2 sync
+    let pick_mut = pick > 0 && t.flip();
     if pick > 0 {
         let q = if pick == 1 { "async " } else { "" };
         let y = if pick == 1 { "crate::rt::yield_once().await; " } else { "" };
         let in_mod = t.chance(1, 3);
-        let f = format!("{q}fn pick<'a>(_deps: &impl ::core::any::Any, xs: &'a [u64]) -> &'a u64 {{ let v = vec![xs[0]]; {y}&xs[(v[0] % 2) as usize] }}");
+        // the borrow may be exclusive: `&'a mut [u64]` in, `&'a mut u64` out
+        let (m, mm) = if pick_mut { ("mut ", "&mut ") } else { ("", "&") };
+        let f = format!("{q}fn pick<'a>(_deps: &impl ::core::any::Any, xs: &'a {m}[u64]) -> &'a {m}u64 {{ let v = vec![xs[0]]; {y}{mm}xs[(v[0] % 2) as usize] }}");
         if in_mod {
             src.push_str(&format!("#[::entrait::entrait(pub Pick)]\npub mod pm {{\n    pub {f}\n}}\nuse pm::pick;\n"));
         } else {
             src.push_str(&format!("#[::entrait::entrait(pub Pick)]\n{f}\n"));
         }
-        src.push_str(&format!("{q}fn gpick<'a>(xs: &'a [u64]) -> &'a u64 {{ let v = vec![xs[0]]; {y}&xs[(v[0] % 2) as usize] }}\n"));
+        src.push_str(&format!("{q}fn gpick<'a>(xs: &'a {m}[u64]) -> &'a {m}u64 {{ let v = vec![xs[0]]; {y}{mm}xs[(v[0] % 2) as usize] }}\n"));
     }
     // ... and a fn with a relaxed argument-position `impl Trait` behind a reference (monomorphised per caller type, no vtable)
     let describe = t.weighted(&[2, 1, 1]); // 0 none, 1 sync, 2 async
@@ -170,15 +173,16 @@ pub fn gen_case(t: &mut Tape) -> Case {
                 String::new()
             };
             let byval_src = byval_src + &describe_src;
+            let xr = if pick_mut { "&mut xs" } else { "&xs" };
             if pick == 0 {
                 byval_src
             } else {
             byval_src + &format!(
-                "    let xs = [4u64, 9u64];\n    let _w = (*{}, *{});\n    let b0 = rt::allocs();\n    let p_plain = *{};\n    let b1 = rt::allocs();\n    let p_via = *{};\n    let b2 = rt::allocs();\n    rt::expect_eq(&mut fails, \"borrowed-output fn: result\", &p_via, &p_plain);\n    rt::expect_eq(&mut fails, \"borrowed-output fn: heap allocations through the trait vs direct\", &(b2 - b1), &(b1 - b0));\n",
-                c("gpick(&xs)"),
-                c("app.pick(&xs)"),
-                c("gpick(&xs)"),
-                c("app.pick(&xs)")
+                "    let mut xs = [4u64, 9u64];\n    let _w = (*{}, *{});\n    let b0 = rt::allocs();\n    let p_plain = *{};\n    let b1 = rt::allocs();\n    let p_via = *{};\n    let b2 = rt::allocs();\n    rt::expect_eq(&mut fails, \"borrowed-output fn: result\", &p_via, &p_plain);\n    rt::expect_eq(&mut fails, \"borrowed-output fn: heap allocations through the trait vs direct\", &(b2 - b1), &(b1 - b0));\n",
+                c(&format!("gpick({xr})")),
+                c(&format!("app.pick({xr})")),
+                c(&format!("gpick({xr})")),
+                c(&format!("app.pick({xr})"))
             )
             }
         } else {
@@ -197,6 +201,9 @@ pub fn gen_case(t: &mut Tape) -> Case {
     }
     if pick > 0 {
         classes.push("output_borrows_through_lifetime_parameter");
+    }
+    if pick_mut {
+        classes.push("exclusive_borrow_in_and_out");
     }
     if byval > 0 {
         classes.push("trait_methods_taking_self_by_value");
